@@ -9,7 +9,7 @@ Lemma t_up_inactive b : Gen_pull.g_up_src_inactive b = negb b. Proof. reflexivit
 Lemma t_up_gone s : Gen_pull.g_up_src_gone s = src_gone s. Proof. destruct s; reflexivity. Qed.
 Lemma t_up_src_m s : Gen_pull.g_up_src_m s = is_m s. Proof. destruct s; reflexivity. Qed.
 Lemma t_up_not_ready b : Gen_pull.g_up_not_ready b = negb b. Proof. reflexivity. Qed.
-Lemma t_up_force s : Gen_pull.g_up_force s = is_x s. Proof. destruct s; reflexivity. Qed.
+Lemma t_up_force s b : Gen_pull.g_up_force s b = is_x s && b. Proof. destruct s; reflexivity. Qed.
 Lemma t_gs_in_group s : Gen_pull.g_gs_in_group s = already_in_group s. Proof. destruct s; reflexivity. Qed.
 Lemma t_pa_present s : Gen_pull.g_pa_present s = is_y s. Proof. destruct s; reflexivity. Qed.
 Lemma t_pa_same_arch a b : Gen_pull.g_pa_same_arch a b = Bool.eqb a b. Proof. destruct a, b; reflexivity. Qed.
